@@ -319,6 +319,12 @@ func fixedPrograms() []c03Prog {
 	p.Threads = append(p.Threads, []hop{{K: "ev", S: 2, T: "CRED_ACQ"}}, []hop{{K: "clean", Cut: -1}})
 	p.Epilogue = append(p.Epilogue, hop{K: "ev", S: 2, T: "USER_END"})
 	ps = append(ps, p)
+	// cleanup racing with traffic of another session while a stale half is pending;
+	// the pending session's login only arrives afterwards
+	p = c03Prog{Prelude: []hop{{K: "login", P: 2}, {K: "open", S: 2, P: 2}, {K: "open", S: 1, P: 1}},
+		Threads:  [][]hop{{{K: "clean", Cut: farFuture}}, {{K: "ev", S: 2, T: "USER_START"}, {K: "ev", S: 2, T: "CRED_ACQ"}}},
+		Epilogue: []hop{{K: "login", P: 1}, {K: "ev", S: 1, T: "USER_END"}}}
+	ps = append(ps, p)
 	// 2 threads: held events flushed by the login while more events arrive
 	p = c03Prog{Prelude: []hop{{K: "open", S: 1, P: 1}, {K: "ev", S: 1, T: "USER_START"}},
 		Threads:  [][]hop{{{K: "login", P: 1}}, {{K: "ev", S: 1, T: "CRED_ACQ"}, {K: "ev", S: 1, T: "USER_CMD"}}},
@@ -450,6 +456,14 @@ func genC03Prog(rt *rapid.T) c03Prog {
 		p.Threads = append(p.Threads, []hop{{K: "login", P: 2}}, []hop{{K: "open", S: 2, P: 2}})
 		p.Epilogue = append(p.Epilogue, hop{K: "ev", S: 2, T: "USER_END"})
 	}
+	if rapid.IntRange(0, 5).Draw(rt, "stalecleanup") == 3 {
+		// a stale pending half (session 3) that only a cleanup thread can remove; its
+		// login arrives in the epilogue
+		p.Prelude = append(p.Prelude, hop{K: "open", S: 3, P: 3})
+		p.Threads = append(p.Threads, []hop{{K: "clean", Cut: farFuture}})
+		p.Epilogue = append(p.Epilogue, hop{K: "login", P: 3}, hop{K: "ev", S: 3, T: "USER_END"})
+		return p
+	}
 	if rapid.IntRange(0, 2).Draw(rt, "cleanup") == 0 && len(p.Threads) < 4 {
 		cut := -1
 		if rapid.IntRange(0, 2).Draw(rt, "future") == 0 {
@@ -539,4 +553,55 @@ func TestC03_Free(t *testing.T) {
 		}
 		return c03FreeCase{Prog: genC03Prog(rt), Seed: rapid.Uint64().Draw(rt, "seed"), Reps: reps}
 	}, execC03Free)
+}
+
+
+// C16 under concurrency (free-running goroutines): a cleanup call that
+// coincides with other traffic still discards the stale pending half.
+func execC16Conc(c c03FreeCase) Outcome {
+	coopMu.Lock()
+	defer coopMu.Unlock()
+	fr := &freeRun{state: c.Seed}
+	common.VerifSchedHook = fr.hook
+	defer func() { common.VerifSchedHook = nil }()
+	p := c03Prog{Prelude: []hop{{K: "login", P: 2}, {K: "open", S: 2, P: 2}, {K: "open", S: 1, P: 1}},
+		Threads:  [][]hop{{{K: "clean", Cut: farFuture}}, {{K: "ev", S: 2, T: "USER_START"}, {K: "ev", S: 2, T: "CRED_ACQ"}, {K: "ev", S: 2, T: "USER_CMD"}}},
+		Epilogue: []hop{{K: "login", P: 1}, {K: "ev", S: 1, T: "USER_END"}}}
+	for r := 0; r < c.Reps; r++ {
+		in := newC03Instance(p, false)
+		// the sink is slow for the other session's events: the tracker is busy for a while
+		in.rec.Hook = func() { time.Sleep(time.Duration(fr.next()%300) * time.Microsecond) }
+		in.runSequentialPart(false)
+		var wg sync.WaitGroup
+		start := make(chan struct{})
+		fns := in.threadFns()
+		for ti, fn := range fns {
+			fn := fn
+			ti := ti
+			wg.Add(1)
+			go func() {
+				defer wg.Done()
+				<-start
+				if ti == 0 {
+					time.Sleep(time.Duration(fr.next()%400) * time.Microsecond) // the cleanup tick lands somewhere in the traffic
+				}
+				fn()
+			}()
+		}
+		close(start)
+		wg.Wait()
+		in.runSequentialPart(true)
+		for _, e := range in.rec.Events() {
+			if e.Ev.Metadata.AuditID == sesString(1) {
+				return fail("repetition %d: the pending session was older than the cut-off of a cleanup call that ran concurrently with other traffic, yet its late login released the held events (op %d emitted): the cleanup was skipped or ineffective", r, opIndexOf(e.Ev.LoggedAt))
+			}
+		}
+	}
+	return Outcome{NT: true}
+}
+
+func TestC16_Conc(t *testing.T) {
+	RunProp(t, "c16.conc", func(rt *rapid.T) c03FreeCase {
+		return c03FreeCase{Seed: rapid.Uint64().Draw(rt, "seed"), Reps: 30}
+	}, execC16Conc)
 }
